@@ -96,6 +96,36 @@ def run_closed_stdout(cmd, repo, unbuffered="0", timeout=120):
         return None
 
 
+def run_on_terminal(cmd, repo, timeout=120):
+    """the tool started with a (pseudo-)terminal as standard output and error, as an operator would see it; returns (status, text)"""
+    import pty
+
+    env = {k: v for k, v in os.environ.items() if k in ("PATH", "HOME", "LANG", "TMPDIR")}
+    env.update({"PYTHONPATH": repo, "PYTHONDONTWRITEBYTECODE": "1", "PYTHONIOENCODING": "utf-8", "PYTHONHASHSEED": "0", "TERM": "xterm-256color"})
+    master, slave = pty.openpty()
+    try:
+        p = subprocess.Popen(cmd, env=env, stdin=subprocess.DEVNULL, stdout=slave, stderr=slave, close_fds=True)
+    finally:
+        os.close(slave)
+    chunks = []
+    try:
+        while True:
+            try:
+                b = os.read(master, 65536)
+            except OSError:
+                break  # EIO: the child closed its side
+            if not b:
+                break
+            chunks.append(b)
+        rc = p.wait(timeout)
+    except subprocess.TimeoutExpired:
+        p.kill()
+        rc = None
+    finally:
+        os.close(master)
+    return rc, b"".join(chunks).decode("utf-8", "replace")
+
+
 def write(path, obj=None, raw=None):
     with open(path, "wb") as f:
         f.write(raw if raw is not None else json.dumps(obj).encode("utf-8"))
@@ -298,6 +328,23 @@ def run_verify(spec, rec, lib):
                                       "library rejects (%s); with stdout a closed pipe (PYTHONUNBUFFERED=%s) %s exited 0" % (why, unbuf, name),
                                       {"kind": "verify", "entry": name, "label": label + "+closed-stdout",
                                        "trusted": tb.decode("utf-8", "replace"), "untrusted": ub.decode("utf-8", "replace")})
+        if tb is not None and ub is not None and n % 3 == 0:
+            # the same pair with a terminal as standard output (colours, isatty() branches): same statuses
+            name, cmd = eps[n % len(eps)]
+            try:
+                rc, txt = run_on_terminal(cmd + ["verify-metadata", tp, up], lib.repo)
+            except OSError:
+                rc, txt = None, ""
+                rec.count("pty_unavailable")
+            if rc is not None:
+                rec.case("%s|terminal|%s" % (name, label))
+                rec.count("terminal_runs")
+                if (rc == 0) != bool(acc):
+                    rec.violation("exit-status/%s/%s-on-a-terminal" % (name, "zero-on-reject" if rc == 0 else "nonzero-on-accept"),
+                                  "library %s (%s); started with a terminal as standard output %s exited %d"
+                                  % ("accepts" if acc else "rejects", why, name, rc),
+                                  {"kind": "verify", "entry": name, "label": label + "+terminal",
+                                   "trusted": tb.decode("utf-8", "replace"), "untrusted": ub.decode("utf-8", "replace")})
         if n < 1:
             rec.sample({"pair": label, "library_verdict": why, "entry_points": [e[0] for e in eps]})
 
